@@ -875,14 +875,41 @@ def _structure(spec, out, env, reprs, order, ctr, path='$'):
         n = len(spec['set']) if k == 'set' else (len(kids) if kids is not None else None)
         if type(out) is not list or (n is not None and len(out) != n):
             return f'{path}: {k} of {n} -> {_short(jenc(out))}'
-        if kids is None:
-            return None
+        if k == 'set':
+            return _unordered(spec['set'], out, path,
+                              lambda c, o, p: _structure(c, o, env, reprs, order, ctr, p))
         for i, (c, o) in enumerate(zip(kids, out)):
             r = _structure(c, o, env, reprs, order, ctr, f'{path}[{i}]')
             if r:
                 return r
         return None
     return f'{path}: unexpected spec {k}'
+
+
+def _unordered(kids, outs, path, check):
+    """a set's elements may come out in any order: every element must be matched by a
+    distinct output entry (elements of sets are leaves or tuples, so greedy matching is exact
+    up to equal-looking entries)"""
+    n = len(kids)
+    ok = [[check(c, o, f'{path}{{{i}}}') for o in outs] for i, c in enumerate(kids)]
+    used = [False] * len(outs)
+
+    def place(i):
+        if i == n:
+            return True
+        for j in range(len(outs)):
+            if not used[j] and ok[i][j] is None:
+                used[j] = True
+                if place(i + 1):
+                    return True
+                used[j] = False
+        return False
+    if place(0):
+        return None
+    for i in range(n):
+        if all(r is not None for r in ok[i]):
+            return ok[i][0] if ok[i] else f'{path}: set element {i} missing'
+    return f'{path}: set elements cannot be matched one-to-one with the output'
 
 
 def _restored(spec, back, env, reprs, order, ctr, sup_tags=True, path='$'):
@@ -946,8 +973,9 @@ def _restored(spec, back, env, reprs, order, ctr, sup_tags=True, path='$'):
         n = len(spec['set']) if k == 'set' else (len(kids) if kids is not None else None)
         if type(back) is not list or (n is not None and len(back) != n):
             return f'{path}: {k} of {n} -> {back!r}'
-        if kids is None:
-            return None
+        if k == 'set':
+            return _unordered(spec['set'], back, path,
+                              lambda c, o, p: _restored(c, o, env, reprs, order, ctr, sup_tags, p))
         for i, (c, o) in enumerate(zip(kids, back)):
             r = _restored(c, o, env, reprs, order, ctr, sup_tags, f'{path}[{i}]')
             if r:
